@@ -9,7 +9,8 @@ LEVEL = ("Static analysis of linfa-preprocessing's scalers and whiteners: (meta)
          "the array-level transform of the same object; (empty) every fit routine tests the sample count against zero and "
          "returns an error before the first reduction over the records; (div) in the scalers every division whose divisor is "
          "derived from the data (standard deviation, max-min, max-abs, row norm) is control-dependent on a zero test of that "
-         "divisor - the 'constant columns are only centred', 'non-zero column' and 'keeps all output finite' clauses. Achieved "
+         "divisor - the 'constant columns are only centred', 'non-zero column' and 'keeps all output finite' clauses; (affine) LinearScaler::transform applies only affine per-element arithmetic - no "
+         "clamp/min/max/abs and no branch on element values. Achieved "
          "means/variances/covariances are not decided.")
 ASSUME = ["rustc resolution/typeck; HIR faithfully dumped", "whitening is claimed on full-rank data only (property text), so divisions by singular values are outside the div rule"]
 
